@@ -7,7 +7,7 @@ HERE = os.path.dirname(os.path.abspath(__file__))
 
 CHECKS = {
     "C01": dict(level="other", technique="abstract interpretation (affine domain over Q(pi) + rounding counter) of every conversion body; unit-symbol oracle; dispatch-table rules",
-                text="Decides, for all 514 units x 3 numeric types and all inputs, that ToStandard denotes exactly the affine map implied by the unit's own symbol, that FromStandard is its inverse, that the dispatch tables route each enumerator to its own routine, and gives an a-priori rounding bound (K roundings => <= K ulp, no cancellation) for multiplicative units. The 'few ulps' figure itself and the affine units near cancellation are not decided.",
+                text="Decides, for all 514 units x 3 numeric types and all inputs, that ToStandard denotes exactly the affine map implied by the unit's own symbol, that FromStandard is its inverse, that the dispatch tables route each enumerator to its own routine, and decides the few-ulp clause for the 512 multiplicative units by a rigorous per-direction bound (constants evaluated exactly as IEEE round-to-nearest arithmetic in T would: <= 4.3 ulp on this tree, threshold 8) plus a coarse rounding-count bound. The affine units (degC, degF) near cancellation and the subnormal range are not decided.",
                 note="trusted: clang front end, oracle/units.py (SI/legal definitions), standard model of FP arithmetic without overflow/underflow", ref="3/C01"),
     "C07": dict(level="proof", technique="table rules over ConsistentUnits/RelatedUnitSystems initialisers + conversion factors from the affine interpretation vs products of system base units",
                 text="Every (system, unit type) entry and every reverse lookup is an obligation discharged exactly: coherent magnitude, total forward tables, reverse table = uniquely-consistent units, lookup idioms.",
@@ -37,16 +37,16 @@ CHECKS = {
                 text="1152 obligations (96 classes x 6 ordered pairs x {construct, assign}); 'one cast, same slot, nothing else' is a shape property and is decided exactly.",
                 note="trusted: clang front end, evaluator, sympy for the direction normalisation identity", ref="3/C16"),
     "C05": dict(level="other", technique="inverse pairs enumerated from resolved signatures; symbolic composition of algebraic normal forms (sympy, positive symbols) compared with the identity",
-                text="Decides the algebraic inverse law G(F(a,b..),b..) = a for every declared pair (about 1170 per numeric type), a necessary condition of the property; the few-ulp clause of the composed floating-point computation is not decided.",
+                text="Decides the algebraic inverse law G(F(a,b..),b..) = a for every declared pair (about 1170 per numeric type), a necessary condition of the property; the few-ulp clause is decided by an a-priori forward error bound (relative-error domain, standard model) for the round trips without subtraction of rounded values (about 60 %: <= 8 u), and not decided where cancellation can occur.",
                 note="trusted: clang front end, evaluator, sympy normalisation; pairing rule documented in DESIGN 3/C05", ref="3/C05"),
     "C09": dict(level="other", technique="polynomial normal forms of every tensor kernel and product overload compared with index-notation definitions (oracle/tensor_algebra.py) on 3x3/3-vector embeddings; inverse guard shape",
                 text="Decides the formula clause for all inputs (polynomial identity => exact on integer-valued inputs) and the absent-iff-singular clause; the few-ulp clause on non-integer inputs is not decided.",
                 note="trusted: clang front end, evaluator, sympy; oracle written from index notation", ref="3/C09"),
     "C18": dict(level="other", technique="definitional functions located by parameter types; algebraic normal form compared with a table of textbook formulas (oracle/formulas.py, 68 entries)",
-                text="Decides which real function each definitional relation computes, constants included, for all positive inputs and the three numeric types; few-ulp accuracy is not decided.",
+                text="Decides which real function each definitional relation computes, constants included, for all positive inputs and the three numeric types (104 formulas); the few-ulp clause is decided by an a-priori forward error bound for the 98 formulas without subtraction of rounded intermediates (<= 5 u) and not decided for the remaining 6.",
                 note="trusted: clang front end, evaluator, sympy, the formula table", ref="3/C18, Appendix B"),
     "C10": dict(level="other", technique="typestate / who-may-write analysis of the stored vector of Direction and PlanarDirection (every constructor, mutator and producer evaluated and classified), syntactic write scan over all bodies, algebraic rules for Magnitude / accessors / scalar x direction constructors",
-                text="Decides the structure of the unit-vector invariant (no path bypasses normalisation; the normalisation formula with its zero branch) and the typed magnitude / component / recomposition rules for all vector quantities; the four-ulp and few-ulp clauses are not decided.",
+                text="Decides the structure of the unit-vector invariant (no path bypasses normalisation; the normalisation formula with its zero branch) and the typed magnitude / component / recomposition rules for all vector quantities; the four-ulp clause is decided by an a-priori bound on the normalisation step (<= 3.5 u per component); the few-ulp recomposition bound is not separately derived.",
                 note="trusted: clang front end, evaluator, sympy", ref="3/C10"),
     "C11": dict(level="other", technique="shape/interval rule on every std::acos reachable from the angle kernels (argument dominated by a clamp into [-1,1] in floating point), algebraic comparison of the clamped cosine with dot/(|a||b|), delegation of the quantity-level angle functions",
                 text="Decides never-NaN and range [0, pi] for all non-zero, non-overflowing inputs (given libm's acos contract), symmetry, scale-freeness and the values at (anti)parallel inputs algebraically, and that all quantity-level angle functions delegate to the kernels. Agreement with atan2 to 1e-7 rad is not decided.",
